@@ -1,5 +1,6 @@
 (* PfVictim.v — which key the score-based policies (LFU / ARC / TLRU) pick:
-   find_victim returns the first queue position whose stored entry has the least score. *)
+   find_victim returns the first queue position whose stored entry has the least score;
+   find_victim_ch (what evict_one uses) returns some stored queue key with the least score. *)
 From CL Require Export PfInvA.
 From Coq Require Import Lia.
 Open Scope N_scope.
@@ -143,6 +144,93 @@ Proof.
 Qed.
 
 (* ------------------------------------------------------------------ *)
+(** * the victims evict_one may pick under the scored policies *)
+
+(* [v] is an admissible victim: a stored queue key whose score (at some position it
+   occupies) is least among the scores of the stored queue keys at their positions *)
+Definition victim_ok (c : cfg) (now : N) (m : store) (q : list key) (v : key) : Prop :=
+  exists j e,
+    nth_key j q = Some v /\ lookup v m = Some e /\
+    (forall j' k' e', nth_key j' q = Some k' -> lookup k' m = Some e' ->
+                      score c now (length q) j e <= score c now (length q) j' e').
+
+Lemma victim_ok_In : forall c now m q v, victim_ok c now m q v -> In v q /\ In v (keys m).
+Proof.
+  intros c now m q v (j & e & Hn & Hl & _).
+  split; [apply (nth_key_In j); exact Hn|apply (lookup_Some_In v m e); exact Hl].
+Qed.
+
+Lemma find_victim_ok : forall c now m q v, find_victim c now m q = Some v -> victim_ok c now m q v.
+Proof.
+  intros c now m q v H. destruct (find_victim_min c now m q v H) as (j & e & Hn & Hl & Hmin & _).
+  exists j, e. split; [exact Hn|]. split; [exact Hl|exact Hmin].
+Qed.
+
+(* under NoDup the (first) position is the position *)
+Lemma score_at_complete : forall sc m q i j k e,
+    NoDup q -> nth_key j q = Some k -> lookup k m = Some e ->
+    score_at sc m q i k = Some (sc (i + j)%nat e).
+Proof.
+  intros sc m q. induction q as [|a q IH]; intros i j k e Hnd Hn Hl; [destruct j; discriminate Hn|].
+  inversion Hnd as [|a' q' Ha Hq]; subst. cbn [score_at]. destruct j as [|j]; cbn [nth_key] in Hn.
+  - inversion Hn; subst a. rewrite N.eqb_refl, Hl. cbn [option_map].
+    replace (i + 0)%nat with i by lia. reflexivity.
+  - destruct (N.eqb_spec k a) as [E|E].
+    + subst a. exfalso. apply Ha. apply (nth_key_In j). exact Hn.
+    + rewrite (IH (S i) j k e Hq Hn Hl). replace (S i + j)%nat with (i + S j)%nat by lia. reflexivity.
+Qed.
+
+Lemma score_at_iff : forall sc m q k s,
+    NoDup q ->
+    (score_at sc m q 0%nat k = Some s <->
+     exists j e, nth_key j q = Some k /\ lookup k m = Some e /\ s = sc j e).
+Proof.
+  intros sc m q k s Hnd. split.
+  - intro H. destruct (score_at_sound _ _ _ _ _ _ H) as (j & e & Hn & Hl & Hs).
+    exists j, e. cbn [Nat.add] in Hs. repeat split; assumption.
+  - intros (j & e & Hn & Hl & Hs). subst s.
+    apply (score_at_complete sc m q 0%nat j k e Hnd Hn Hl).
+Qed.
+
+(* The victim named by find_victim_ch is a stored queue key whose score is minimal among
+   the stored queue keys.  (It need not be the first such key.) *)
+Theorem find_victim_ch_min : forall c now m q ch v ch',
+    find_victim_ch c now m q ch = (Some v, ch') -> victim_ok c now m q v.
+Proof.
+  intros c now m q ch v ch' H. unfold find_victim_ch in H.
+  pose proof (first_min_spec (score c now (length q)) m q 0%nat None) as Hs.
+  destruct (first_min (score c now (length q)) m q 0%nat None) as [[v0 s0]|] eqn:E; [|discriminate H].
+  assert (H0 : victim_ok c now m q v0).
+  { apply find_victim_ok. unfold find_victim. rewrite E. reflexivity. }
+  destruct ch as [|k ch0]; [inversion H; subst; exact H0|].
+  destruct (score_at (score c now (length q)) m q 0%nat k) as [sk|] eqn:Ek;
+    [|inversion H; subst; exact H0].
+  destruct (N.eqb_spec sk s0) as [Es|Es]; inversion H; subst; [|exact H0].
+  cbn [fm_post] in Hs. destruct Hs as (_ & HB & _).
+  destruct (score_at_sound _ _ _ _ _ _ Ek) as (j & e & Hn & Hl & Hsc). cbn [Nat.add] in Hsc.
+  exists j, e. split; [exact Hn|]. split; [exact Hl|].
+  intros j' k' e' Hn' Hl'. rewrite <- Hsc. apply (HB j' k' e' Hn' Hl').
+Qed.
+
+(* every admissible victim can be picked: name it as the next choice *)
+Lemma victim_ok_pickable : forall c now m q v ch,
+    NoDup q -> victim_ok c now m q v -> find_victim_ch c now m q (v :: ch) = (Some v, ch).
+Proof.
+  intros c now m q v ch Hnd (j & e & Hn & Hl & Hmin). unfold find_victim_ch.
+  pose proof (first_min_spec (score c now (length q)) m q 0%nat None) as Hs.
+  destruct (first_min (score c now (length q)) m q 0%nat None) as [[v0 s0]|] eqn:E.
+  - rewrite (score_at_complete _ m q 0%nat j v e Hnd Hn Hl). cbn [Nat.add].
+    cbn [fm_post] in Hs. destruct Hs as (_ & HB & [HC|(j0 & e0 & Hn0 & Hl0 & Hs0 & _)]); [discriminate HC|].
+    cbn [Nat.add] in Hs0.
+    assert (Eq : score c now (length q) j e = s0).
+    { pose proof (HB j v e Hn Hl) as H1. cbn [Nat.add] in H1.
+      pose proof (Hmin j0 v0 e0 Hn0 Hl0) as H2. rewrite <- Hs0 in H2. lia. }
+    apply N.eqb_eq in Eq. rewrite Eq. reflexivity.
+  - exfalso. cbn [fm_post] in Hs. destruct Hs as (_ & HN).
+    rewrite (HN v (nth_key_In j q v Hn)) in Hl. discriminate Hl.
+Qed.
+
+(* ------------------------------------------------------------------ *)
 (** * evict_one, policy by policy *)
 
 (* FIFO / LRU: the victim is the front of the queue *)
@@ -165,26 +253,27 @@ Proof.
   exists v. repeat split; assumption.
 Qed.
 
-(* LFU / ARC / TLRU: the victim is the one find_victim names *)
+(* LFU / ARC / TLRU: the victim is an admissible one (a minimiser of the score among the
+   stored queue keys); nothing is evicted exactly when no queue key is stored *)
 Lemma evict_one_score_victim : forall c now u m q ch m' q' ev ch',
     counts_hits (pol c) = true -> NoDup q ->
     evict_one c now u m q ch = (m', q', ev, ch') ->
-    match find_victim c now m q with
-    | Some v => ev = true /\ m' = sremove v m /\ q' = remove_first v q /\ ch' = ch
-    | None => ev = false /\ m' = m /\ q' = q /\ ch' = ch
-    end.
+    (exists v, victim_ok c now m q v /\ ev = true /\ m' = sremove v m /\ q' = remove_first v q) \/
+    (find_victim c now m q = None /\ ev = false /\ m' = m /\ q' = q).
 Proof.
   intros c now u m q ch m' q' ev ch' Hp Hnd H. unfold evict_one in H.
   assert (Hs :
-    match find_victim c now m q with
-    | Some v => (sremove v m, (if is_async c then remove_all v q else remove_first v q), true, ch)
-    | None => (m, q, false, ch)
-    end = (m', q', ev, ch')).
+    (let '(ov, ch0) := find_victim_ch c now m q ch in
+     match ov with
+     | Some v => (sremove v m, (if is_async c then remove_all v q else remove_first v q), true, ch0)
+     | None => (m, q, false, ch0)
+     end) = (m', q', ev, ch')).
   { destruct (pol c); cbn [counts_hits] in Hp; try discriminate Hp; exact H. }
-  clear H. destruct (find_victim c now m q) as [v|]; inversion Hs; subst.
-  - repeat split; try reflexivity.
+  clear H. destruct (find_victim_ch c now m q ch) as [[v|] ch0] eqn:Ev; inversion Hs; subst.
+  - left. exists v. split; [apply (find_victim_ch_min _ _ _ _ _ _ _ Ev)|].
+    repeat split; try reflexivity.
     destruct (is_async c); [|reflexivity]. symmetry. apply remove_first_remove_all. exact Hnd.
-  - repeat split; reflexivity.
+  - right. split; [apply (find_victim_ch_None _ _ _ _ _ _ Ev)|]. repeat split; reflexivity.
 Qed.
 
 (* Random: the victim is the key at the position random_pos names *)
@@ -203,3 +292,4 @@ Proof.
 Qed.
 
 Print Assumptions find_victim_min.
+Print Assumptions find_victim_ch_min.
